@@ -88,9 +88,9 @@ func (n *nodeProxy) ApplyUpdate(e pb.Entry, r sm.Result, rejected bool, ignored 
 	n.applied[e.Index] = append(n.applied[e.Index], applyRec{r, rejected, ignored})
 }
 func (n *nodeProxy) ApplyConfigChange(pb.ConfigChange, uint64, bool) error { return nil }
-func (n *nodeProxy) ReplicaID() uint64                                    { return 1 }
-func (n *nodeProxy) ShardID() uint64                                      { return 1 }
-func (n *nodeProxy) ShouldStop() <-chan struct{}                          { return n.stop }
+func (n *nodeProxy) ReplicaID() uint64                                     { return 1 }
+func (n *nodeProxy) ShardID() uint64                                       { return 1 }
+func (n *nodeProxy) ShouldStop() <-chan struct{}                           { return n.stop }
 
 // ---- rsm.ISnapshotter over the in-memory fs, using the real snapshot writer/reader ----
 
@@ -316,4 +316,49 @@ func decodeSessions(b []byte) (uint64, []sessionView) {
 		panic("trailing bytes after the session table")
 	}
 	return size, out
+}
+
+// installFrom: another replica (built by applying the whole log `history` to a
+// fresh StateMachine) saves a snapshot; this LIVE replica — whose session table
+// is whatever it was when it stopped applying — recovers from it
+// (StateMachine.Recover, not initial) and continues from the snapshot index.
+// Returns the snapshot's session table in file order (saved), the same table
+// most-recently-used first (want) and the user state in the image.
+func (r *replica) installFrom(history []op, n int) (saved, want string, acc uint64, perr string) {
+	perr = vh.Catch(func() {
+		ld := newReplica(r.cap, r.fs, fmt.Sprintf("%s-ld%d", r.name, n))
+		for _, o := range history {
+			ld.apply(o)
+		}
+		for ld.index < r.index { // the image must be ahead of the lagging replica
+			ld.feed([]pb.Entry{{Index: ld.index + 1, Term: 1, Type: pb.ApplicationEntry}})
+			ld.index++
+			delete(ld.node.applied, ld.index)
+		}
+		ld.feed([]pb.Entry{{Index: ld.index + 1, Term: 1, Type: pb.ApplicationEntry}})
+		ld.index++
+		ss, _, err := ld.sm.Save(hk.SSRequest{})
+		if err != nil {
+			panic(err)
+		}
+		acc = ld.usm.acc
+		cap, sessions := decodeSessions(ld.snap.sessions)
+		saved = showSessions(cap, sessions)
+		mru := make([]sessionView, len(sessions))
+		for i := range sessions {
+			mru[len(sessions)-1-i] = sessions[i]
+		}
+		want = showSessions(cap, mru)
+		r.snap.last, r.snap.has = ss, true
+		hk.SetLRUMaxSessionCount(r.cap)
+		got, err := r.sm.Recover(hk.Task{Index: ss.Index})
+		if err != nil {
+			panic(err)
+		}
+		if got.Index != ss.Index {
+			panic(fmt.Sprintf("recovered snapshot index %d, want %d", got.Index, ss.Index))
+		}
+		r.index = ss.Index
+	})
+	return
 }
